@@ -3,6 +3,7 @@
 package radius
 
 import (
+	"net"
 	"testing"
 
 	lradius "layeh.com/radius"
@@ -27,6 +28,41 @@ func c07Radius(entry string, n []uint64, f []string) string {
 			return "ok NOTRESTORED"
 		}
 		return c07Ok(c07U(uint64(off)), c07TB(w))
+	case "radreply": // radreply - <raw> <d_resp> <d_ma> <reqAuth>
+		return c07Ok(c07Bool(isAuthenticReply(data, c07Arg(f, 3), []byte("secret"))))
+	case "radreqauth": // radreqauth - <raw> <digest>
+		return c07Ok(c07Bool(validateRequestAuthenticator(data, []byte("secret"))))
+	case "radma": // radma - <raw> <digest>
+		before := string(data)
+		r := validateMessageAuthenticator(data, []byte("secret"))
+		if string(data) != before {
+			return "ok MODIFIED"
+		}
+		return c07Ok(c07Bool(r))
+	case "coaattrs": // coaattrs <type,...> <expected NAS-Identifier> <value> ...: the CoA attribute accessors
+		p := &lradius.Packet{}
+		for i, ty := range n {
+			p.Attributes = append(p.Attributes, &lradius.AVP{Type: lradius.Type(ty), Attribute: lradius.Attribute(c07Arg(f, 1+i))})
+		}
+		tgt, cause := resolveCoATarget(p)
+		kind, val := "0", []byte{}
+		switch {
+		case cause != 0:
+		case tgt.AcctSessionID != "":
+			kind, val = "1", []byte(tgt.AcctSessionID)
+		case tgt.FramedIPv4 != "":
+			kind, val = "2", net.ParseIP(tgt.FramedIPv4).To4()
+		case tgt.Username != "":
+			kind, val = "3", []byte(tgt.Username)
+		case tgt.FramedIPv6 != "":
+			kind, val = "4", net.ParseIP(tgt.FramedIPv6).To16()
+		}
+		nas := "0"
+		if validateNASIdentifier(p, string(data)) != nil {
+			nas = "1"
+		}
+		return c07Ok(kind, c07TB(val), c07Bool(hasServiceType(p, 8)), c07U(uint64(getEventTimestamp(p))),
+			c07Bool(hasNonIdentificationAttrs(p)), nas)
 	case "fzrad": // supporting validation only: layeh radius.Parse + the CoA accessors on whatever it accepts
 		p, err := lradius.Parse(data, []byte("secret"))
 		validateMessageAuthenticator(data, []byte("secret"))
